@@ -641,10 +641,11 @@ def expected_dense(inp, nr, nc):
 def is_malformed(c):
     """the property's notion, for a description of a non-empty table; None = not in the property's domain"""
     oids, sids = c['oids'], c['sids']
-    if not oids or not sids:
-        return None
     sr, sc = carries_shape(c['inp'])
-    if (sr is not None and sr == 0) or (sc is not None and sc == 0):
+    if sr is not None and sc is not None:
+        if sr == 0 or sc == 0:           # an empty matrix (it takes the shape of the ids)
+            return None
+    elif not oids or not sids:           # no shape of its own and no ids on an axis: an empty table
         return None
     es = entries_of(c['inp'])
     why = []
